@@ -389,7 +389,13 @@ impl World {
         let (wa, ra) = ha.join().map_err(|_| "par: thread A panicked".to_string())?;
         let (wb, rb) = hb.join().map_err(|_| "par: thread B panicked".to_string())?;
         let step = self.history.len();
+        let observed_before = self.observed.len();
+        let mut par_seen: std::collections::BTreeSet<(String, Vec<u8>)> = Default::default();
+        let mut widx = 0;
         for mut w in [wa, wb] {
+            if w.nondeterministic {
+                self.nondeterministic = true;
+            }
             self.objs.kex.append(&mut w.objs.kex);
             self.objs.zuc.append(&mut w.objs.zuc);
             if let Some(e) = w.invalid {
@@ -423,7 +429,20 @@ impl World {
                 }
                 self.used_scalars.entry(k).or_insert(st);
             }
-            self.observed.extend(w.observed);
+            // scalars the REAL generator produced for the two callers must differ as well
+            // (a fork starts with the parent's list: only what this caller added counts)
+            let added: Vec<(String, Vec<u8>)> = w.observed.split_off(observed_before.min(w.observed.len()));
+            for (g, v) in &added {
+                if par_seen.contains(&(g.clone(), v.clone())) {
+                    let key = json!({"entry": "par", "class": "scalar-repeats-across-callers", "outcome": "Ok"});
+                    self.check("C14", "M3-callers-fresh", false, fnv(&[b"par-real-dup", v]), key, || format!("two concurrent callers obtained the same {g} scalar {} from the real generator", hex::encode(v)));
+                }
+            }
+            if widx == 0 {
+                par_seen.extend(added.iter().cloned());
+            }
+            widx += 1;
+            self.observed.extend(added);
         }
         self.bump("history.concurrent-callers");
         self.bump_by("probe.par.thread-switches", gate.switches() as u64);
